@@ -46,7 +46,9 @@ NodeClauses(c, j) ==
       ok == nd.out.cls = "ok"
       idem == IF nd.parent > 0 /\ ok /\ c.nodes[nd.parent].site = nd.site
               THEN F("idempotent", nd.out.prog # c.nodes[nd.parent].out.prog \/ ~nd.eq_prev) ELSE {}
-      legalIn == LegalNesting(cur)
+      \* (a native gate set without prepare_all / measure_all cannot express an expanded subcircuit: unasserted)
+      legalIn == LegalNesting(cur) /\ ValidIn(c.start, c.ovr) /\ ValidIn(c.start, <<>>)
+                 /\ (c.start.natives = <<>> \/ {"prepare_all", "measure_all"} \subseteq NativeNames(c.start))
       legal == IF ok /\ legalIn
                THEN F("legal_nesting", ~LegalNesting(nd.out.prog))
                     \cup F("legal_reparse", LegalNesting(nd.out.prog) /\
